@@ -107,6 +107,62 @@ def handler_denies(h, prog=None, f=None, region=None):
                         g.qual in region:
                     continue
             return False, 'returns %s' % U(n.value)
+    if prog is not None and f is not None and _falls_through(h):
+        return _exits_after_handler_deny(prog, f, h, region)
+    return True, ''
+
+
+def _falls_through(h):
+    """The handler body can complete without returning (it passes, logs,
+    assigns, breaks or continues): what is answered then is decided by the
+    code that runs after it."""
+    last = h.body[-1] if h.body else None
+    if isinstance(last, (ast.Return, ast.Raise)):
+        # ... unless an earlier statement already leaves a loop
+        return any(isinstance(n, (ast.Break, ast.Continue))
+                   for b in h.body for n in ast.walk(b))
+    return True
+
+
+_TABLES = {}
+
+
+def _exits_after_handler_deny(prog, f, h, region):
+    """Every path of f through handler h ends in a falsy constant, or in the
+    answer of another function of the evaluation region (an attempt that
+    failed, followed by the next way of evaluating the same check)."""
+    from ..dte import Table
+    key = (id(prog), f.qual)
+    t = _TABLES.get(key)
+    if t is None:
+        try:
+            t = Table(prog, f, handler_paths=True)
+        except Exception as e:          # path explosion and the like
+            raise AnalysisError('paths of %s not enumerable: %s' % (f.qual,
+                                                                   e))
+        _TABLES[key] = t
+    mine = [p for p in t.paths if any(
+        c.kind == 'exc' and c.line == h.lineno for c in p.conds)]
+    if not mine:
+        return True, ''
+    for p in mine:
+        if p.outcome.kind == 'raise':
+            return False, 'leads to a raise (line %d)' % p.outcome.line
+        if p.outcome.kind != 'return' or p.outcome.expr is None:
+            continue                    # None: falsy
+        e = t.expand(p.outcome.expr)
+        if isinstance(e, ast.Constant) and not e.value:
+            continue
+        if isinstance(e, (ast.Tuple, ast.List, ast.Set)) and not e.elts:
+            continue
+        if isinstance(e, ast.Call):
+            g = prog.callee_of(f, e)
+            if g is not None and region is not None and g.qual in region \
+                    and g is not f:
+                continue
+        return False, 'is followed by `return %s` (line %d): the check ' \
+            'that could not be evaluated is answered by a computed value' % (
+                U(e)[:60], p.outcome.line)
     return True, ''
 
 
